@@ -65,7 +65,7 @@ func (mapiter) Describe() core.EngineInfo {
 	return core.EngineInfo{
 		Level: "exploration",
 		Rule: "a case is one history over one map: inserts/updates with unique values, deletes, lookups, comma-ok lookups, len, and up to three nested range cursors whose bodies perform further operations (also on the cursor's current key) in chosen iterations, abandoned or run to exhaustion; " +
-			"the map under test may sit 1-2 levels inside string-keyed maps (lookups through missing and nil levels); driven through the host Value API (NewMap/Set/Get/Delete/Len/Range) or through a generated script (m[k]=v, delete, v,ok:=m[k], len, nested for-range); key types string/int32/uint8/float64(+-0)/bool, element types int/string/float64/bool/[]int/*T; key universe 2-40 so that histories cross the compaction threshold; the order produced by key-list compaction is a seeded choice (verif hook). " +
+			"the map under test may sit 1-2 levels inside string-keyed maps (lookups through missing and nil levels), may be a local of the script function (fused accesses) and may be cloned, the clone kept and written to; driven through the host Value API (NewMap/Set/Get/Delete/Len/Range) or through a generated script (m[k]=v, delete, v,ok:=m[k], len, nested for-range); key types string/int32/uint8/float64(+-0)/bool, element types int/string/float64/bool/[]int/*T; key universe 2-40 so that histories cross the compaction threshold; the order produced by key-list compaction is a seeded choice (verif hook). " +
 			"Judged step by step against a Go map with per-key liveness generations. non-trivial = a cursor was alive across a mutation; distinct = (driver, key type, op-kind sequence relative to cursors, compactions)",
 		Real:       []string{"goatlang stringMap/numericMap (Set/Get/Delete/Len/Range, key-list compaction), NewMap, codes SET/GET/GETOK/DELETE/LEN/RANGE/ITER and fused FASTGET/FASTSET through the compiler and VM"},
 		Stubs:      []string{"Go's randomised map iteration inside the key-list compaction -> seeded permutation (hook verifOrderStrings/verifOrderFloats)"},
